@@ -1,24 +1,354 @@
+// Command c01 drives the C01 check ("every accepted design generates code that compiles").
+//
+// Part 1 (names.go): codegen.Goify / CamelCase / NameScope on generated strings and call
+// sequences; results go to Coq (cases_*.txt, classes.txt) and through the direct oracle.
+//
+// Part 2 (build.go, covering.go, witness.go, features.go): designs are evaluated through
+// goa's real DSL, generated ("gen" + "example") and type-checked with `go build`. Streams:
+// witness (one minimal design per recorded finding, must fail with exactly its signature),
+// covering (hand-written feature products, must build), random (designgen.Random inside the
+// compile-clean envelope, must build). A design accepted by RunDSL that panics in Generate,
+// makes it return an error, or does not build is a failing input.
 package main
 
 import (
+	"encoding/json"
 	"flag"
 	"fmt"
+	"os"
+	"path/filepath"
+	"sort"
+	"strings"
 	"time"
+
+	dg "verifharness/designgen"
+	"verifharness/vh"
 )
 
-func main() {
-	out := flag.String("out", "/tmp/c01/w", "")
-	repo := flag.String("repo", "/repo", "")
-	stubs := flag.String("stubs", "/verif/harness/stubs/clue", "")
-	flag.Parse()
-	cs := coveringDesigns()
-	t0 := time.Now()
-	vs, err := runBatch(cs, *out+"/batch", *repo, *stubs, true)
-	fmt.Println("err:", err, time.Since(t0))
-	for i, c := range cs {
-		fmt.Printf("== d%d %s stage=%s files=%d\n   msg=%s\n", i, c.Name, vs[i].Stage, vs[i].Files, vs[i].Msg)
-		for _, e := range vs[i].Errs {
-			fmt.Println("     ", errClass(e), "|", e)
+// sanitize keeps a random design inside the envelope of the recorded findings that
+// designgen.DefaultOptions can still draw: a map parameter with MaxLength < 3 (empty CLI
+// example: panic), a primitive payload mapped to a header, Enum on sized-int array elements.
+func sanitize(d *dg.Design) {
+	// Enum(1,2,3) on array elements of a sized integer type panics in the example generator
+	var walk func(t *dg.Type)
+	walk = func(t *dg.Type) {
+		for _, f := range t.Attrs {
+			walk(&f.A.T)
+		}
+		if t.Key != nil {
+			walk(&t.Key.T)
+		}
+		if t.Elem != nil {
+			if t.Kind == "array" && t.Elem.T.Kind == "prim" && sizedInt(t.Elem.T.Prim) && t.Elem.V != nil && len(t.Elem.V.Enum) > 0 {
+				t.Elem.V = &dg.Validation{Min: dg.Fp(1), Max: dg.Fp(3)}
+			}
+			walk(&t.Elem.T)
 		}
 	}
+	for _, ut := range d.Types {
+		walk(&ut.Base)
+	}
+	for _, s := range d.Services {
+		for _, m := range s.Methods {
+			for _, a := range []*dg.Attr{m.Payload, m.Result} {
+				if a != nil {
+					walk(&a.T)
+				}
+			}
+		}
+	}
+	for _, s := range d.Services {
+		for _, m := range s.Methods {
+			if m.HTTP != nil && m.Payload != nil && m.Payload.T.Kind != "object" && m.Payload.T.Kind != "user" && len(m.HTTP.Headers) > 0 {
+				// a primitive payload mapped to a header does not compile (recorded finding): use the query string
+				m.HTTP.Params = append(m.HTTP.Params, dg.MapEntry{Attr: "pq"})
+				m.HTTP.Headers = nil
+			}
+			if m.HTTP == nil || m.Payload == nil || m.Payload.T.Kind != "object" {
+				continue
+			}
+			for _, e := range m.HTTP.Params {
+				if f := fieldByName(&m.Payload.T, e.Attr); f != nil && f.A.T.Kind == "map" && f.A.V != nil && f.A.V.MaxLen != nil && *f.A.V.MaxLen < 3 {
+					f.A.V.MaxLen = dg.Ip(3)
+				}
+			}
+		}
+	}
+}
+
+type designRun struct {
+	root, repo, stubs string
+	n                 int
+}
+
+func (r *designRun) one(d *dg.Design) Verdict {
+	r.n++
+	vs, err := runBatch([]DCase{{Design: d}}, filepath.Join(r.root, fmt.Sprintf("shrink%d", r.n)), r.repo, r.stubs, true)
+	if err != nil {
+		return Verdict{Stage: "build-error", Msg: err.Error()}
+	}
+	return vs[0]
+}
+
+// shrink removes services, methods and attributes while the signature stays the same.
+func shrink(r *designRun, d *dg.Design, sig string, budget int) *dg.Design {
+	cur := d.Clone()
+	try := func(c *dg.Design) bool {
+		if budget <= 0 {
+			return false
+		}
+		budget--
+		v := r.one(c)
+		if v.Stage == "ok" || v.Stage == "rejected" {
+			return false
+		}
+		return classify(c, v) == sig
+	}
+	for changed := true; changed && budget > 0; {
+		changed = false
+		for i := range cur.Services {
+			if len(cur.Services) < 2 {
+				break
+			}
+			c := cur.Clone()
+			c.Services = append(c.Services[:i:i], c.Services[i+1:]...)
+			if try(c) {
+				cur, changed = c, true
+				break
+			}
+		}
+		if changed {
+			continue
+		}
+	methods:
+		for si, s := range cur.Services {
+			for mi := range s.Methods {
+				if len(s.Methods) < 2 {
+					break
+				}
+				c := cur.Clone()
+				ms := c.Services[si].Methods
+				c.Services[si].Methods = append(ms[:mi:mi], ms[mi+1:]...)
+				if try(c) {
+					cur, changed = c, true
+					break methods
+				}
+			}
+		}
+		if changed {
+			continue
+		}
+	fields:
+		for si, s := range cur.Services {
+			for mi, m := range s.Methods {
+				for which, a := range []*dg.Attr{m.Payload, m.Result} {
+					if a == nil || a.T.Kind != "object" || len(a.T.Attrs) < 2 {
+						continue
+					}
+					for fi := range a.T.Attrs {
+						c := cur.Clone()
+						cm := c.Services[si].Methods[mi]
+						ca := cm.Payload
+						if which == 1 {
+							ca = cm.Result
+						}
+						name := ca.T.Attrs[fi].Name
+						ca.T.Attrs = append(ca.T.Attrs[:fi:fi], ca.T.Attrs[fi+1:]...)
+						if cm.HTTP != nil {
+							dropEntry := func(es []dg.MapEntry) []dg.MapEntry {
+								var out []dg.MapEntry
+								for _, e := range es {
+									if e.Attr != name {
+										out = append(out, e)
+									}
+								}
+								return out
+							}
+							if which == 0 {
+								if strings.Contains(fmt.Sprint(cm.HTTP.Routes), "{"+name+"}") {
+									continue
+								}
+								cm.HTTP.Params, cm.HTTP.Headers, cm.HTTP.Cookies = dropEntry(cm.HTTP.Params), dropEntry(cm.HTTP.Headers), dropEntry(cm.HTTP.Cookies)
+							} else {
+								for ri := range cm.HTTP.Responses {
+									rr := &cm.HTTP.Responses[ri]
+									rr.Headers, rr.Cookies = dropEntry(rr.Headers), dropEntry(rr.Cookies)
+									if len(rr.Tag) == 2 && rr.Tag[0] == name {
+										rr.Tag = nil
+									}
+								}
+							}
+						}
+						if try(c) {
+							cur, changed = c, true
+							break fields
+						}
+					}
+				}
+			}
+		}
+	}
+	return cur
+}
+
+func main() {
+	seed := flag.Uint64("seed", 1, "")
+	tier := flag.String("tier", "quick", "")
+	out := flag.String("out", ".", "")
+	replay := flag.String("replay", "", "")
+	repo := flag.String("repo", "/repo", "goa tree the harness was built against (batch module replace target)")
+	stubs := flag.String("stubs", "/verif/harness/stubs/clue", "stand-in module for goa.design/clue")
+	only := flag.String("only", "", "names | designs (debugging)")
+	worker := flag.Bool("worker", false, "internal: evaluate and generate one shard of designs")
+	wCases := flag.String("cases", "", "internal")
+	wRoot := flag.String("root", "", "internal")
+	wShard := flag.Int("shard", 0, "internal")
+	wShards := flag.Int("shards", 1, "internal")
+	wFrom := flag.Int("from", 0, "internal")
+	wExample := flag.Bool("example", true, "internal")
+	flag.Parse()
+	if *worker {
+		workerMain(*wCases, *wRoot, *wShard, *wShards, *wFrom, *wExample)
+		return
+	}
+	t0 := time.Now()
+	rng := vh.NewRNG(*seed)
+	res := vh.NewResult()
+
+	var replayInput map[string]any
+	var replayDesign *dg.Design
+	if *replay != "" {
+		b, err := os.ReadFile(*replay)
+		must(err)
+		var rp struct {
+			Input map[string]any `json:"input"`
+		}
+		if err := json.Unmarshal(b, &rp); err != nil || rp.Input == nil {
+			fmt.Println("replay file has no input")
+			os.Exit(2)
+		}
+		replayInput = rp.Input
+		if dj, ok := rp.Input["design"]; ok {
+			db, _ := json.Marshal(dj)
+			replayDesign = &dg.Design{}
+			must(json.Unmarshal(db, replayDesign))
+		}
+	}
+
+	// ---- part 1: names ----
+	var st namesStats
+	if *only != "designs" && (replayInput == nil || replayDesign == nil) {
+		st = runNames(rng.Fork(), *tier, *out, res, replayInput)
+	} else {
+		st = runNames(rng.Fork(), *tier, *out, res, map[string]any{"call": "none"})
+	}
+	lawFailures := classLaws()
+	res.Extra["class_law_failures"] = lawFailures
+	tNames := time.Since(t0)
+
+	// ---- part 2: designs ----
+	var cases []DCase
+	nRandom := 40
+	if *tier == "thorough" {
+		nRandom = 400
+	}
+	switch {
+	case replayDesign != nil:
+		cases = append(cases, DCase{Stream: "replay", Name: replayDesign.Name, Design: replayDesign})
+	case replayInput != nil || *only == "names":
+	default:
+		cases = append(cases, witnessDesigns()...)
+		cases = append(cases, coveringDesigns()...)
+		dr := rng.Fork()
+		for i := 0; i < nRandom; i++ {
+			d := dg.Random(dr.Fork(), dg.DefaultOptions(), i)
+			sanitize(d)
+			cases = append(cases, DCase{Stream: "random", Name: d.Name, Design: d})
+		}
+	}
+	run := &designRun{root: filepath.Join(*out, "shrink"), repo: *repo, stubs: *stubs}
+	built, accepted := 0, 0
+	designDistinct := vh.Distinct{}
+	var verdicts []Verdict
+	if len(cases) > 0 {
+		// batches of 150 designs keep one `go build` invocation reasonable
+		for lo := 0; lo < len(cases); lo += 150 {
+			hi := lo + 150
+			if hi > len(cases) {
+				hi = len(cases)
+			}
+			vs, err := runBatch(cases[lo:hi], filepath.Join(*out, fmt.Sprintf("batch%d", lo/150)), *repo, *stubs, true)
+			if err != nil {
+				fmt.Println("batch failed:", err)
+				os.Exit(3)
+			}
+			verdicts = append(verdicts, vs...)
+		}
+	}
+	shrunk := 0
+	type caseRec struct {
+		Stream, Name, Stage, Signature string
+		Features                       []string
+	}
+	var recs []caseRec
+	for i, c := range cases {
+		v := verdicts[i]
+		res.Count("design_stream=" + c.Stream)
+		res.Count("design_stage[" + c.Stream + "]=" + v.Stage)
+		for _, f := range c.Design.Features {
+			res.Count("feature=" + f)
+		}
+		rec := caseRec{Stream: c.Stream, Name: c.Name, Stage: v.Stage}
+		if c.Stream != "witness" {
+			if ev := envelopeViolations(c.Design); len(ev) > 0 && c.Stream != "replay" {
+				res.Count("outside_envelope[" + c.Stream + "]")
+				rec.Features = ev
+			}
+		}
+		switch v.Stage {
+		case "rejected":
+			if c.Stream == "covering" || c.Stream == "witness" {
+				// a hand-written design that goa refuses tests nothing: make it loud
+				res.Fail("harness-design-rejected:"+c.Name, "the hand-written design "+c.Name+" is not accepted by RunDSL any more: "+v.Msg, map[string]any{"design": c.Design, "stream": c.Stream})
+			}
+		case "ok":
+			accepted++
+			built++
+			designDistinct.Add(c.Design.JSON())
+			if c.Stream == "witness" {
+				res.Count("witness_no_longer_failing=" + c.Expect)
+			}
+		default:
+			accepted++
+			designDistinct.Add(c.Design.JSON())
+			sig := classify(c.Design, v)
+			rec.Signature = sig
+			d := c.Design
+			if strings.HasPrefix(sig, "unlisted:") && c.Stream != "witness" && shrunk < 2 {
+				shrunk++
+				d = shrink(run, c.Design, sig, 24)
+			}
+			what := fmt.Sprintf("design %s (%s stream) is accepted by RunDSL but %s: %s", c.Name, c.Stream, v.Stage, v.Msg)
+			errs := v.Errs
+			if len(errs) > 8 {
+				errs = errs[:8]
+			}
+			res.Fail(sig, what, map[string]any{"design": d, "stream": c.Stream, "stage": v.Stage, "message": v.Msg, "diagnostics": errs, "expected_signature": c.Expect})
+		}
+		recs = append(recs, rec)
+		if c.Stream == "random" && i%13 == 0 {
+			res.Sample(map[string]any{"design": c.Name, "features": c.Design.Features, "stage": v.Stage, "files": v.Files}, 12)
+		}
+	}
+	os.RemoveAll(run.root)
+
+	res.Evaluations = st.goify + st.camel + st.scope + len(cases)
+	res.Distinct = len(st.distinct) + len(designDistinct)
+	res.Rule = "names: fixed corpus (every universe identifier, keyword and package name in 6 spellings, every initialism in 9 spellings, boundary strings) + random strings (structured words x separators x casing; ASCII soup; runes of a 180-rune alphabet with caseless / title-case / non-letter-lower runes; raw bytes with invalid UTF-8), each through Goify x {upper,lower} and CamelCase x 4 flag pairs; NameScope: random sequences of 1-24 Unique/HashedUnique/Name calls over 15 names x 6 suffixes x 6 keys; non-trivial = input longer than one rune / sequence longer than two calls, distinct = distinct inputs. designs: witness (one per recorded finding) + covering (hand-written feature products) + designgen.Random(DefaultOptions); distinct = distinct design JSON among designs accepted by RunDSL"
+	res.Extra["names_cases"] = map[string]int{"goify": st.goify, "camelcase": st.camel, "scope_sequences": st.scope}
+	res.Extra["designs"] = map[string]int{"total": len(cases), "accepted": accepted, "built_ok": built}
+	res.Extra["design_cases"] = recs
+	res.Extra["seconds"] = map[string]float64{"names": tNames.Seconds(), "total": time.Since(t0).Seconds()}
+	sort.Slice(res.Failures, func(i, j int) bool { return res.Failures[i].Signature < res.Failures[j].Signature })
+	must(res.Write(filepath.Join(*out, "result.json")))
 }
